@@ -32,6 +32,7 @@ type implInfo struct {
 }
 
 type World struct {
+	namedFn map[*types.TypeName]*namedFuncInfo // closed-world targets of named func types (stable.go)
 	fset      *token.FileSet
 	prog      *ssa.Program
 	pkgs      map[string]*PkgInfo
@@ -335,8 +336,20 @@ func (w *World) ifaceContract(t types.Type, method string) *Contract {
 	}
 	// contracts for external interfaces may live in any loaded contract file under the full name
 	full := n.Obj().Pkg().Path() + "." + key
-	for _, pi := range w.pkgs {
-		if pi.cf != nil {
+	// deterministic precedence (was Go map order = a different file per call site when two files carry the key):
+	// the contract file of the unit under verification first, then the first file in package-path order
+	if w.curUnitPkg != nil && w.curUnitPkg.cf != nil {
+		if c, ok := w.curUnitPkg.cf.Contracts[full]; ok {
+			return c
+		}
+	}
+	var paths []string
+	for p := range w.pkgs {
+		paths = append(paths, p)
+	}
+	sort.Strings(paths)
+	for _, p := range paths {
+		if pi := w.pkgs[p]; pi.cf != nil {
 			if c, ok := pi.cf.Contracts[full]; ok {
 				return c
 			}
